@@ -157,11 +157,36 @@ def _calc_f_loop(traces, loop_corrections):
 
 
 @nb.njit(cache=True)
+def _get_padding(matrix, diagonal):
+    r"""
+    The loop weight of the auxiliary mode which makes an odd number of particles even.
+
+    It is matched to the magnitude of the input: with a fixed weight of 1 the terms
+    of the power trace algorithm mix very different magnitudes for small inputs and
+    the result loses accuracy. The result has to be divided by this weight.
+    """
+    dim = len(matrix)
+
+    if dim == 0:
+        return 1.0
+
+    padding = max(
+        np.sqrt(np.sum(np.abs(matrix)) / dim**2), np.sum(np.abs(diagonal)) / dim
+    )
+
+    if padding == 0.0:
+        return 1.0
+
+    return float(padding)
+
+
+@nb.njit(cache=True)
 def _extend(matrix_orig, diagonal_orig, occupation_numbers):
     dim = len(matrix_orig)
+    padding = _get_padding(matrix_orig, diagonal_orig)
     new_matrix = np.empty((dim + 1, dim + 1), dtype=matrix_orig.dtype)
     new_matrix[1:, 1:] = matrix_orig
-    new_matrix[0, 0] = 1.0
+    new_matrix[0, 0] = 0.0
     new_matrix[1:, 0] = 0.0
     new_matrix[0, 1:] = 0.0
 
@@ -171,13 +196,13 @@ def _extend(matrix_orig, diagonal_orig, occupation_numbers):
     new_diagonal = np.empty(d + 1, dtype=diagonal_orig.dtype)
 
     new_occupation_numbers[0] = 1
-    new_diagonal[0] = 1.0
+    new_diagonal[0] = padding
 
     for i in range(d):
         new_occupation_numbers[i + 1] = occupation_numbers[i]
         new_diagonal[i + 1] = diagonal_orig[i]
 
-    return new_matrix, new_diagonal, new_occupation_numbers
+    return new_matrix, new_diagonal, new_occupation_numbers, padding
 
 
 @nb.njit(cache=True, parallel=True)
@@ -194,14 +219,17 @@ def loop_hafnian_with_reduction(matrix_orig, diagonal_orig, occupation_numbers):
 
     diagonal_orig = diagonal_orig.astype(matrix_orig.dtype)
 
+    padding = 1.0
+
     if n == 0:
         return 1.0
     elif n % 2 == 1:
-        # Handling the odd case by extending the matrix with a 1 to be even.
+        # Handling the odd case by extending the matrix with an auxiliary mode to be
+        # even. The result needs to be divided by the loop weight of this mode.
         #
         # TODO: This is not the best handling of the odd case, and we can definitely
         # squeeze out a bit more performance if needed.
-        matrix_orig, diagonal_orig, occupation_numbers = _extend(
+        matrix_orig, diagonal_orig, occupation_numbers, padding = _extend(
             matrix_orig, diagonal_orig, occupation_numbers
         )
 
@@ -255,7 +283,7 @@ def loop_hafnian_with_reduction(matrix_orig, diagonal_orig, occupation_numbers):
 
     result /= 1 << (dim_over_2 - 1)
 
-    return result
+    return result / padding
 
 
 @nb.njit(cache=True)
@@ -289,7 +317,8 @@ def _prepare_data(matrix_orig, diagonal_orig, occupation_numbers_orig, cutoff):
 
         occupation_numbers_orig_copy[-1] += 1
 
-        matrix_odd, diagonal_odd, _ = _extend(
+        padding_even = 1.0
+        matrix_odd, diagonal_odd, _, padding_odd = _extend(
             matrix_orig, diagonal_orig, occupation_numbers_orig_copy
         )
 
@@ -310,7 +339,8 @@ def _prepare_data(matrix_orig, diagonal_orig, occupation_numbers_orig, cutoff):
         )
 
     else:
-        matrix, diagonal, occupation_numbers = _extend(
+        padding_odd = 1.0
+        matrix, diagonal, occupation_numbers, padding_even = _extend(
             matrix_orig, diagonal_orig, occupation_numbers_orig
         )
         all_edges_orig, edge_indices_orig = match_occupation_numbers(occupation_numbers)
@@ -347,7 +377,16 @@ def _prepare_data(matrix_orig, diagonal_orig, occupation_numbers_orig, cutoff):
     matrix_odd = ix_(matrix_odd, edge_indices_odd, edge_indices_odd)
     diagonal_odd = diagonal_odd[edge_indices_odd]
 
-    return matrix, diagonal, matrix_odd, diagonal_odd, all_edges, all_edges_odd
+    return (
+        matrix,
+        diagonal,
+        matrix_odd,
+        diagonal_odd,
+        all_edges,
+        all_edges_odd,
+        padding_even,
+        padding_odd,
+    )
 
 
 @nb.njit(cache=True)
@@ -456,13 +495,20 @@ def loop_hafnian_with_reduction_batch(
     """
     particle_number_sum = sum(occupation_numbers_orig)
 
-    matrix, diagonal, matrix_odd, diagonal_odd, all_edges, all_edges_odd = (
-        _prepare_data(
-            matrix_orig,
-            diagonal_orig,
-            occupation_numbers_orig,
-            cutoff,
-        )
+    (
+        matrix,
+        diagonal,
+        matrix_odd,
+        diagonal_odd,
+        all_edges,
+        all_edges_odd,
+        padding_even,
+        padding_odd,
+    ) = _prepare_data(
+        matrix_orig,
+        diagonal_orig,
+        occupation_numbers_orig,
+        cutoff,
     )
 
     scale_factor = _get_scale_factor(matrix)
@@ -525,6 +571,12 @@ def loop_hafnian_with_reduction_batch(
     concat_result = _concatenate_results(
         result, result_odd, scale_factor, scale_factor_odd, dim_over_2, dim_over_2_odd
     )
+
+    for i in range(len(concat_result)):
+        if i % 2 == 0:
+            concat_result[i] /= padding_even
+        else:
+            concat_result[i] /= padding_odd
 
     if particle_number_sum == 0:
         concat_result[0] = 1.0
